@@ -23,13 +23,13 @@ Publish(d, da, o, kv, dv) ==
                              kviol |-> kv, devs |-> dv]})
 
 TInit ==
-  /\ InitWith([rw |-> [A |-> <<"A">>, B |-> <<"B">>]])
+  /\ InitWith([rw |-> [A |-> <<"A">>, B |-> <<"B">>], scope |-> "global"])
   /\ l = 1 /\ drift = FALSE /\ driftAt = 0 /\ tno = 0 /\ kviol = {}
   /\ TLCSet(1, {})
 
 TReset ==
   /\ IsEv("Cfg")
-  /\ cfg' = [rw |-> [A |-> Ev.rw.A, B |-> Ev.rw.B]]
+  /\ cfg' = [rw |-> [A |-> Ev.rw.A, B |-> Ev.rw.B], scope |-> Ev.scope]
   /\ pc' = "idle" /\ lst' = <<>> /\ st' = <<>> /\ idx' = 0 /\ calls' = <<>>
   /\ obs' = ObsInit /\ devs' = {} /\ hist' = <<>>
   /\ l' = l + 1 /\ drift' = FALSE /\ driftAt' = 0 /\ tno' = Ev.t /\ kviol' = {}
